@@ -166,8 +166,18 @@ def sequences(max_len):
     return out
 
 
+def _optstr(options):
+    return ", ".join("%s=%r" % kv for kv in sorted(options.items()))
+
+
+# the options every solver accepts; what the stack holds must not depend on them
+OPTION_SETS = [(("generate_models", False),), (("generate_models", False), ("random_seed", 7)), (("unsat_cores_mode", "all"),),
+               (("solver_options", {}), ("generate_models", True))]
+
+
 def _run_chunk(job):
-    seqs, every_step = job
+    seqs, every_step = job[:2]
+    options = dict(job[2]) if len(job) > 2 else {}
     repo = get_repo()
     repo.add_virtual(PROBE_MOD, PROBE_SRC)
     shape = Shape(("And", S("a"), S("b"), S("c")))
@@ -184,7 +194,7 @@ def _run_chunk(job):
             ref = [[]]
             problems = []
             try:
-                solver = it.instantiate(ClassRef(PROBE_MOD + ".ProbeSolver"), [w.env, logic, log, answers], {})
+                solver = it.instantiate(ClassRef(PROBE_MOD + ".ProbeSolver"), [w.env, logic, log, answers], dict(options))
                 for i, x in enumerate(seq):
                     n_log = len(log)
                     nxt = answers[0]
@@ -261,11 +271,11 @@ def _run_chunk(job):
                     exc_ = AObj("builtins.ValueError", {"args": ("raised inside the with-block",)}, tag="exc")
                     if it.truth(it.call(it.getattr(solver, "__exit__"), [ExtRef("ValueError"), exc_, None]), "__exit__"):
                         problems.append("as a context manager the solver swallows an exception raised in the with-block (__exit__ returns a true value)")
-                out.append((seq, "ok" if not problems else "bad", problems))
+                out.append((seq, "ok" if not problems else "bad", problems) + ((_optstr(options),) if options else ()))
             except AbsRaise as ex:
-                out.append((seq, "raise", ["%s%s after %s" % (ex.cls_name, proc._args(ex), [NAMES[y] for y in seq])]))
+                out.append((seq, "raise", ["%s%s after %s" % (ex.cls_name, proc._args(ex), [NAMES[y] for y in seq])]) + ((_optstr(options),) if options else ()))
             except Unsupported as ex:
-                out.append((seq, "unsupported", [str(ex)]))
+                out.append((seq, "unsupported", [str(ex)]) + ((_optstr(options),) if options else ()))
         return out
 
     def post(w, f, val, facts):
@@ -303,10 +313,10 @@ def _its_fail_chunk(cases):
         a, b, c, d, e = w.nargs(f)
         logic = it.module_global(w.repo.modules["pysmt.logics"], "QF_BOOL")
 
-        def run(seq, skip):
+        def run(seq, skip, options=()):
             log = []
             answers = [False, True] * (len(seq) + 2)
-            solver = it.instantiate(ClassRef(PROBE_MOD + ".RefusingProbeSolver"), [w.env, logic, log, answers, [d], 2, [e]], {})
+            solver = it.instantiate(ClassRef(PROBE_MOD + ".RefusingProbeSolver"), [w.env, logic, log, answers, [d], 2, [e]], dict(options))
             outs = []
             for x in seq:
                 if x in ("XA", "XP", "XQ", "XU") and skip:
@@ -325,6 +335,8 @@ def _its_fail_chunk(cases):
                         r = it.call(it.getattr(solver, "solve"), [])
                     elif x == "Q":
                         r = it.call(it.getattr(solver, "is_sat"), [c])
+                    elif x == "V":
+                        r = it.call(it.getattr(solver, "is_valid"), [c])
                     elif x in ("XQ", "XU"):
                         r = it.call(it.getattr(solver, "is_sat"), [d if x == "XQ" else e])
                     elif x == "LC":
@@ -345,10 +357,12 @@ def _its_fail_chunk(cases):
                 outs.append((x, out, live, len(solver.attrs.get("_backtrack_points", [])), [len(fr) for fr in solver.attrs.get("native", [])]))
             return outs
         res = []
-        for head, tail in cases:
+        for case in cases:
+            head, tail = case[:2]
+            options = case[2] if len(case) > 2 else ()
             seq = head + tail
             try:
-                res.append((seq, "ok", run(seq, False), run(seq, True)))
+                res.append((seq, "ok", run(seq, False, options), run(seq, True, options)) + ((_optstr(dict(options)),) if options else ()))
             except Unsupported as ex:
                 res.append((seq, "unsupported", str(ex), None))
         return res
@@ -390,10 +404,15 @@ def its_failure_results(repo, tier="quick"):
         # `last_result` is "unknown" after an unknown verdict - as documented; they are compared from the next command on
         cases = [(h, t) for h in ITS_F_HEADS for t in ITS_F_TAILS
                  if not ((h[-1] in ("XQ", "XU") and t[0] == "LC") or ("XU" in h and "LR" in t))]
+        # a solver created without the incremental interface: one query only, but a query that was refused is none
+        ni = (("incremental", False),)
+        cases += [(("XQ",), ("Q",), ni), (("XQ",), ("V",), ni), (("XQ", "XQ"), ("Q", "LR"), ni), (("A", "XQ"), ("Q",), ni), (("XQ",), ("S",), ni),
+                  (("XA",), ("Q",), ni), (("A", "XA"), ("B", "Q"), ni), (("XQ",), ("Q",), (("generate_models", False),)),
+                  (("P", "A", "XQ", "O"), ("Q", "S"), (("generate_models", False),))]
         if tier == "thorough":
             cases += [(h1 + h2, t) for h1 in ITS_F_HEADS[:5] for h2 in ITS_F_HEADS[:5] for t in ITS_F_TAILS]
             cases += [(h, t1 + t2) for h in ITS_F_HEADS for t1 in ITS_F_TAILS for t2 in ITS_F_TAILS[1:4]]
-            cases = [c for c in cases if _its_depth_ok(c[0] + c[1])]
+            cases = [c for c in cases if len(c) > 2 or _its_depth_ok(c[0] + c[1])]
         chunks = [cases[i:i + 4] for i in range(0, len(cases), 4)]
         out = []
         for r in parallel_map(_its_fail_chunk, chunks):
@@ -411,6 +430,10 @@ def its_results(repo, tier="quick"):
         seqs = sequences(3 if tier == "quick" else 4)
         chunks = [seqs[i:i + 60] for i in range(0, len(seqs), 60)]
         jobs = [(ch, False) for ch in chunks] + [(ch, True) for ch in chunks]
+        # the same under other option sets, for the sequences with a one-shot query (its level is what options could touch)
+        oneshot = [sq for sq in seqs if any(x in ("Q", "V", "U") for x in sq) and (len(sq) <= 2 or len(sq) >= 4)]
+        ochunks = [oneshot[i:i + 60] for i in range(0, len(oneshot), 60)]
+        jobs += [(ch, True, opts) for ch in ochunks for opts in OPTION_SETS]
         first = _run_chunk((seqs[:3], False))
         out = []
         for r in parallel_map(_run_chunk, jobs):
